@@ -277,5 +277,7 @@ func corr(c *vh.Ctx) {
 	corrShow(c)
 	corrQuote(c)
 	corrStmt(c)
+	corrSimple(c)
+	corrItems(c)
 	corrNumLaws(c)
 }
